@@ -3,6 +3,9 @@ package protobuf
 import (
 	"bytes"
 
+	autogen "github.com/aptpod/iscp-proto/gen/gogofast/iscp2/v1"
+	"github.com/gogo/protobuf/proto"
+
 	"github.com/aptpod/iscp-go/internal/vf"
 	"github.com/aptpod/iscp-go/message"
 )
@@ -26,3 +29,128 @@ func zzC11PingBytes() {
 	}
 	vf.Reach("end")
 }
+
+func zzIDBytes(label string) []byte {
+	// a stream id field as the byte decoder can produce it: any length 0..17
+	n := vf.Choose(label+".len", 4)
+	switch n {
+	case 0:
+		return nil
+	case 1:
+		return make([]byte, 15)
+	case 2:
+		b := make([]byte, 16)
+		b[0], b[15] = vf.U8(label+".first"), vf.U8(label+".last")
+		return b
+	}
+	return make([]byte, 17)
+}
+
+// C12.b: hostile but well-formed protobuf frames (wrong-length uuids, absent inner messages, unknown
+// enum numbers, absent oneof) never make DecodeFrom panic: the result is an error or a message, and
+// a produced message encodes again and decodes back to itself.
+func zzC12bHostileFrames() {
+	var pb autogen.Message
+	switch zzShape() {
+	case 0: // no oneof set at all
+	case 1:
+		pb.Message = &autogen.Message_DownstreamChunkAck{DownstreamChunkAck: &autogen.DownstreamChunkAck{
+			StreamIdAlias: 7, AckId: 9,
+			Results: []*autogen.DownstreamChunkResult{{StreamIdOfUpstream: zzIDBytes("res.id"), SequenceNumberInUpstream: 3, ResultCode: zzRC("res.rc")}},
+		}}
+	case 2:
+		pb.Message = &autogen.Message_DownstreamChunkAck{DownstreamChunkAck: &autogen.DownstreamChunkAck{
+			UpstreamAliases: map[uint32]*autogen.UpstreamInfo{5: {SessionId: "s", SourceNodeId: "n", StreamId: zzIDBytes("up.id")}},
+		}}
+	case 3:
+		pb.Message = &autogen.Message_DownstreamChunkAck{DownstreamChunkAck: &autogen.DownstreamChunkAck{
+			DataIdAliases: map[uint32]*autogen.DataID{4: nil},
+		}}
+	case 4:
+		pb.Message = &autogen.Message_UpstreamOpenResponse{UpstreamOpenResponse: &autogen.UpstreamOpenResponse{
+			RequestId: 2, AssignedStreamId: zzIDBytes("assigned"), ResultCode: zzRC("open.rc"),
+		}}
+	case 5:
+		pb.Message = &autogen.Message_DownstreamChunk{DownstreamChunk: &autogen.DownstreamChunk{
+			StreamIdAlias: 7,
+			UpstreamOrAlias: &autogen.DownstreamChunk_UpstreamInfo{UpstreamInfo: &autogen.UpstreamInfo{SessionId: "s", SourceNodeId: "n", StreamId: zzIDBytes("chunk.up.id")}},
+		}}
+	case 6:
+		pb.Message = &autogen.Message_UpstreamCloseRequest{UpstreamCloseRequest: &autogen.UpstreamCloseRequest{
+			RequestId: 2, StreamId: zzIDBytes("close.id"), TotalDataPoints: zzTotal(), FinalSequenceNumber: 11,
+		}}
+	}
+	frame, merr := proto.Marshal(&pb)
+	vf.Assume(merr == nil)
+	e := &encoder{}
+	var m message.Message
+	var err error
+	var n int
+	panicked := vf.Panics(func() { n, m, err = e.DecodeFrom(bytes.NewReader(frame)) })
+	vf.Assert("decode-never-panics", !panicked)
+	if panicked {
+		return
+	}
+	vf.Assert("error-or-message", (err != nil) != (m != nil))
+	if err != nil {
+		vf.Assert("error-result-is-zero", n == 0 && m == nil)
+		vf.Reach("rejected")
+		return
+	}
+	vf.Assert("consumed-count", n == len(frame))
+	// a produced message can be encoded again and decodes back to itself
+	var buf bytes.Buffer
+	_, eerr := e.EncodeTo(&buf, m)
+	vf.Assert("accepted-message-encodes", eerr == nil)
+	if eerr == nil {
+		_, m2, derr := e.DecodeFrom(&buf)
+		vf.Assert("accepted-message-round-trips", derr == nil && vf.CanonEqual(m, m2))
+	}
+	vf.Reach("accepted")
+}
+
+var zzSymbolicNumbers = false
+
+// zzRC is a wire result code: defined, undefined or negative (concrete classes in the quick tier,
+// any int32 in the thorough tier).
+func zzRC(label string) autogen.ResultCode {
+	if zzSymbolicNumbers {
+		return autogen.ResultCode(vf.I32(label))
+	}
+	switch vf.Choose(label+".class", 5) {
+	case 0:
+		return autogen.ResultCode_SUCCEEDED
+	case 1:
+		return autogen.ResultCode_UNSPECIFIED_ERROR
+	case 2:
+		return autogen.ResultCode_SESSION_CANNOT_CLOSED
+	case 3:
+		return autogen.ResultCode(9999)
+	}
+	return autogen.ResultCode(-1)
+}
+
+func zzTotal() uint64 {
+	if zzSymbolicNumbers {
+		return vf.U64("total")
+	}
+	if vf.Choose("total.class", 2) == 0 {
+		return 0
+	}
+	return 1<<64 - 1
+}
+
+func zzC12bHostileFramesSym() { zzSymbolicNumbers = true; zzC12bHostileFrames() }
+
+var zzShapeFixed = -1
+
+func zzShape() int {
+	if zzShapeFixed >= 0 {
+		return zzShapeFixed
+	}
+	return vf.Choose("shape", 7)
+}
+
+func zzC12bShape1() { zzShapeFixed = 1; zzC12bHostileFrames() }
+func zzC12bShape4() { zzShapeFixed = 4; zzC12bHostileFrames() }
+func zzC12bShape6() { zzShapeFixed = 6; zzC12bHostileFrames() }
